@@ -579,7 +579,7 @@ func (s *Sym) evCall(env *Env, x ECall) TV {
 		ks := SortOf(mt.Key())
 		d := s.getMap(env.st, dn, "(Array Int (Array "+ks+" Bool))")
 		return TV{T: fmt.Sprintf("(and (not (= %s 0)) (select (select %s %s) %s))", m.T, d, m.T, k.T), S: "Bool"}
-	case "typeis":
+	case "typeis", "typeisval":
 		v := s.ev(env, x.Args[0])
 		id, ok := x.Args[1].(EIdent)
 		var tn string
@@ -591,6 +591,9 @@ func (s *Sym) evCall(env *Env, x ECall) TV {
 		t := s.P.namedType(tn)
 		if t == nil {
 			bad("unknown type %s", tn)
+		}
+		if x.Fn == "typeisval" {
+			return TV{T: fmt.Sprintf("(= (ityp %s) %s)", v.T, s.typeID(t)), S: "Bool"}
 		}
 		return TV{T: fmt.Sprintf("(= (ityp %s) %s)", v.T, s.typeID(types.NewPointer(t))), S: "Bool"}
 	case "sel":
@@ -723,7 +726,7 @@ func (s *Sym) evMethodCall(env *Env, x ECall) TV {
 	} else if n := namedOf(recv.GT); n != nil {
 		key = typeShort(n) + "." + name
 	}
-	fc := s.P.Specs.Funcs[key]
+	fc := s.P.contractFor(key)
 	if fc == nil || !fc.Pure {
 		bad("method %s is not declared pure (key %s)", x.Fn, key)
 	}
@@ -855,6 +858,20 @@ func (s *Sym) defineSpec(sf *SpecFunc) []string {
 	kw := "define-fun"
 	if recursive {
 		kw = "define-fun-rec"
+	}
+	if sf.Opaque && !s.revealed[sf.Name] {
+		// opaque here: an uninterpreted function of the same signature
+		var sorts []string
+		for _, m := range foot {
+			sorts = append(sorts, s.mapSort[m])
+		}
+		for _, p := range sf.Params {
+			so, _ := s.P.specType(p.Type)
+			sorts = append(sorts, so)
+		}
+		s.emit(fmt.Sprintf("(declare-fun %s (%s) %s)", q("spec:"+sf.Name), strings.Join(sorts, " "), ret))
+		s.specDefined[sf.Name] = true
+		return foot
 	}
 	s.emit(fmt.Sprintf("(%s %s (%s) %s %s)", kw, q("spec:"+sf.Name), strings.Join(params, " "), ret, b.T))
 	s.specDefined[sf.Name] = true
